@@ -136,6 +136,14 @@ def exhaustive(ctx, tag, n, dcs, pols, fails, walks, walk_len, do_witnesses):
     for k, v in stats.items():
         ctx.count("replay_" + k, v)
 
+    # ---- whole-cluster histories: start-up and relocations delivered by the real control connection
+    cst = L.cluster_histories(nodes, edges, n, dcs, ctx.rng, per_policy=4 if ctx.quick else 12, relocations=4, on_failure=F.add)
+    ctx.traces_validated += cst["refreshes_checked"] - cst["failed"]
+    for k, v in cst.items():
+        ctx.count("cluster_" + k, v)
+    if cst["refreshes_checked"] < 5:
+        raise tlc.MachineryError("whole-cluster histories could not be matched with specification states: %r" % (cst,))
+
     # ---- code -> spec: recorded random histories, validated by TLC
     paths = L.random_paths(nodes, edges, init, ctx.rng, walks, walk_len)
     traces, verdicts = [], []
